@@ -93,6 +93,14 @@ def check_cfg(ctx, fx, cfg):
     cfields = {fl["name"]: fl["ty"] for fl in fx.adts["context::Context"]["variants"][0]["fields"]} if "context::Context" in fx.adts else {}
     wrappers = {ty.split("<")[0] for ty in cfields.values() if ty.split("<")[0] in fx.adts}
     holders = ["context::Context" if h_ in wrappers else h_ for h_ in holders]
+    # a newtype of the erased box itself (`struct AnyBox(Box<dyn Any + Send + Sync>)`, shared by the registry and the child table)
+    # is not a place where children are kept: the types that have a field made of it are
+    for h_ in list(holders):
+        a_ = fx.adts.get(h_)
+        fl_ = a_["variants"][0]["fields"] if a_ and len(a_["variants"]) == 1 else []
+        if len(fl_) == 1 and fl_[0]["ty"].startswith("alloc::boxed::Box<dyn core::any::Any"):
+            holders.remove(h_)
+            holders += [b_["def"] for b_ in fx.d["adts"] if b_["def"].split("::")[0] != "actor" and any(h_ + ">" in f2["ty"] or h_ + "," in f2["ty"] or f2["ty"] == h_ for v2 in b_["variants"] for f2 in v2["fields"])]
     holders = sorted(set(holders))
     ctx.require(holders == ["context::Context"], "R06.3", "child-table-holder@" + cfg, "type-erased child storage outside the Context: %s" % holders, site=fx.adts["context::Context"]["loc"], detail=holders)
     # R06.4 joins
@@ -192,12 +200,19 @@ def check_timer_list(ctx, fx, cfg, ab, R_ATOMIC, R_ACCESS):
         if _abortable_parts(b) is not None:
             recorders.add(root)
     allowed = set(ab) | set(r for r in timers.registrars(fx) if r.startswith("context::")) | recorders
+    # (a private method of the list's wrapper type that only those functions use — `TaskList::push` — is part of them)
+    allowed |= set(graph.private_helpers(fx, allowed))
     for fn_, locs in sorted(touch.items()):
         ctx.require(fn_ in allowed, R_ACCESS, "timer-list-access:%s@%s" % (fn_, cfg), "the context's timer list is accessed outside the registrar and the abort-all function (handles moved elsewhere are not aborted when the actor dies)", fn=fn_, site=locs[0], detail={"sites": len(locs)})
 
 
 def check_drop_aborts(ctx, fx, cfg, ab, rule):
     dropf = fx.impl_fn("core::ops::drop::Drop", "context::Context<", "drop")
+    if dropf is None:
+        # the list may be a type of its own that aborts what is left on it when it goes away (`struct TaskList(Vec<AbortHandle>)`
+        # with `impl Drop for TaskList`, a field of the Context): dropping the context drops the list
+        for adt_, _fld in timers.list_holders(fx)[1:]:
+            dropf = dropf or fx.impl_fn("core::ops::drop::Drop", adt_, "drop")
     if ctx.require(dropf is not None, rule, "Context-Drop@" + cfg, "impl Drop for Context not found: timers would outlive the actor"):
         b = ctx.body(fx, dropf)
         direct = dropf["def"] in ab
@@ -269,7 +284,14 @@ def check_registrar(ctx, fx, f, cfg):
     """the registrar R hands a future to the runtime; R itself, or one synchronous helper H it calls on the same context
     (a method of the context or of the task list's wrapper type), makes that future abortable and records the handle in
     the context's timer list before the future is spawned"""
-    b = ctx.body(fx, f)
+    # (plain methods of the task list's wrapper type — `self.tasks.push(handle)` with `struct TaskList(Vec<AbortHandle>)` — are
+    # looked at as if written here; a wrapper method that makes the future abortable stays a call: it is the helper H below)
+    import inline
+    _inner = {a_ for a_, _f in timers.list_holders(fx)[1:]}
+
+    def _list_methods(g, t):
+        return inline.not_public(g, t) and (g.get("impl_self") or "").split("<")[0] in _inner and _abortable_parts(ctx.body(fx, g)) is None
+    b = inline.body(ctx, fx, f, _list_methods) if _inner else ctx.body(fx, f)
     inst = "registrar:%s@%s" % (f["def"], cfg)
     h, hb, hcall = f, b, None
     parts = _abortable_parts(b)
